@@ -40,6 +40,11 @@ CHECKS = {
    technique="stateful property-based testing (proptest op sequences over the whole porcelain; safety oracle from the content-addressed writers model on blame and on every note)",
    text="Generated histories over the whole supported porcelain including destructive and unsupported-for-preservation commands, weighted toward 'AI work pending -> destructive op -> a person writes at the same line numbers -> commit'. After every commit, at every branch tip at the end and for every note in the repository, a line reported for session S must have been written by S according to the content-addressed model. Loss is never an alarm.",
    note="Safety direction only. A session that only re-touched white space of a line, resolved a conflict containing it, or (finding F25) deleted its neighbouring lines is classified separately. Known findings sticky per history."),
+ "C04": dict(
+   level="exploration", design="DESIGN.md §2 C04",
+   technique="stateful property-based testing (proptest): generated change sets split into partial commits by file and by hunk (index composed as `git add -p` would), per-commit model oracle + 'recorded once' invariant",
+   text="A generated change set of AI and human hunks is committed through 1-4 successive partial commits (by path, and by hunk via a composed index) with optional edits and commits in between, then the rest. Every commit is judged by the C01 commit oracle (a line is recorded for a commit iff that commit adds it and an agent wrote it per the content-addressed model), and across the sequence no AI line may be listed by the notes of two commits.",
+   note="Hunks are those of real git's `diff -U0 HEAD` (Myers). Known findings F4 (unstaged removal above a staged hunk) and F33 (INITIAL not remapped after an uncheckpointed human edit) are matched by signature; lines left out of a partial commit are re-stamped to the next epoch so that they are judged strictly when finally committed."),
 }
 
 NOT_YET = "check not built yet (work in progress; see DESIGN.md section 2 for the plan)"
